@@ -354,6 +354,9 @@ fn on_small_stack<T: Send>(ctx: &Ctx, f: impl FnOnce() -> T + Send) -> T {
 }
 
 pub fn c04_faulted(ctx: &Ctx, out: &mut RunOut) -> Result<(), Violation> {
+    for k in ["fault-truncate", "fault-bit-flip", "fault-byte-burst", "fault-zero-block", "fault-stale-block", "fault-misdirected-block", "fault-duplicated-block", "fault-splice", "fault-digit-edit", "fault-ref-retarget", "entry-load-mem", "entry-load-from-faulty-source", "entry-incremental-load", "base-deep-nesting", "faulted-image-loaded-ok", "faulted-image-rejected"] {
+        ctx.count_n(k, 0); // registered so that a probe that never fires shows up as zero in the evidence
+    }
     let (base, older, hot, what) = base_image(ctx)?;
     ctx.event("c04-base", base.len() as u64, simcore::fnv(&base));
     let n_variants = if thorough() { 12 } else { 6 };
